@@ -371,6 +371,38 @@ func checkRaw(c RawCase) vk.Verdict {
 		return vk.Failf("%s: %v", ctx, err)
 	}
 	ran := strings.HasPrefix(string(out), "HTTP/1.1 200")
+	// whether a query binds does not depend on the order in which its (differently named) components arrive: one
+	// malformed or unconvertible component makes the binding fail wherever it stands
+	if pairs := strings.Split(c.Query, "&"); ran && len(pairs) > 1 {
+		keys := map[string]bool{}
+		distinct := true
+		for _, p := range pairs {
+			k := p
+			if i := strings.IndexAny(p, "=[."); i >= 0 {
+				k = p[:i] // (components of one nested name count as one key)
+			}
+			if keys[k] {
+				distinct = false
+			}
+			keys[k] = true
+		}
+		if distinct {
+			firstQ, firstM := results["query"] != "<nil>", results["querymap"] != "<nil>"
+			rev := make([]string, len(pairs))
+			for i, p := range pairs {
+				rev[len(pairs)-1-i] = p
+			}
+			if _, err := vk.Wire(app, vk.Req("POST", "/plain?"+strings.Join(rev, "&"), hdr, c.Body)); err == nil {
+				if revQ, revM := results["query"] != "<nil>", results["querymap"] != "<nil>"; revQ != firstQ || revM != firstM {
+					return vk.Failf("%s: binding the query fails=%v (into a map: %v), with the components in reverse order %q fails=%v (map: %v)", ctx, firstQ, firstM, strings.Join(rev, "&"), revQ, revM)
+				}
+			}
+			// restore the outcome of the original order for what follows
+			if _, err := vk.Wire(app, vk.Req("POST", "/plain?"+c.Query, hdr, c.Body)); err != nil {
+				return vk.Failf("%s: %v", ctx, err)
+			}
+		}
+	}
 	out2, err := vk.Wire(app, vk.Req("POST", "/auto?"+c.Query, hdr, c.Body))
 	if err != nil {
 		return vk.Failf("%s (auto handling): %v", ctx, err)
